@@ -21,10 +21,9 @@ use vh::oracle;
 use vh::prog::{Instr, Program};
 use vh::util::*;
 
-const STATIC: [&str; 24] = [
+const STATIC: [&str; 20] = [
     "pis", "wires_cap", "zs_cap", "quot_cap", "op_constants", "op_sigmas", "op_wires", "op_zs", "op_zs_next", "op_pp",
-    "op_quot", "op_lzs", "op_lzs_next", "commit_cap", "final_poly", "pow_witness", "init_leaf:0", "init_leaf:1",
-    "init_leaf:2", "init_leaf:3", "init_path", "step_eval", "step_path", "init_leaf",
+    "op_quot", "op_lzs", "op_lzs_next", "commit_cap", "final_poly", "pow_witness", "init_leaf", "init_path", "step_eval", "step_path",
 ];
 const VDC: [&str; 6] = ["vd_digest", "vd_cap_one", "vd_cap_all", "vd_other", "vd_other_cap", "vd_other_digest"];
 
@@ -48,7 +47,6 @@ fn run_shape<OC: GenericConfig<D, F = F>>(s: &Value, selftest: bool) -> Vec<Valu
     let pad = s["pad"].as_u64().unwrap_or(0) as usize;
     let per_class = s["per_class"].as_u64().unwrap_or(1) as usize;
     let sample = s["sample"].as_u64().unwrap_or(1) as usize;
-    let classes: Vec<String> = serde_json::from_value(s["classes"].clone()).unwrap_or_default();
     let t0 = std::time::Instant::now();
     let inner = match build_inner(&prog, &cfg, &inputs, pad) {
         Ok(i) => i,
@@ -95,6 +93,8 @@ fn run_shape<OC: GenericConfig<D, F = F>>(s: &Value, selftest: bool) -> Vec<Valu
     };
     let constants = oracle::constants_by_row(&outer.prover_only, &outer.common);
     let nlayers = common.fri_params.reduction_arity_bits.len();
+    // the catalogue of the model with NL = min(layers, 3) commit-phase layers
+    let classes: Vec<String> = serde_json::from_value(s["classes"][nlayers.min(3).to_string()].clone()).unwrap_or_default();
     out.push(json!({"id": id, "shape": {"inner_degree_bits": common.degree_bits(), "layers": common.fri_params.reduction_arity_bits,
         "inner_pis": common.num_public_inputs, "lookups": !common.luts.is_empty(), "zk": common.config.zero_knowledge,
         "outer_degree_bits": outer.common.degree_bits(), "inner_ms": inner_ms, "outer_build_ms": t1.elapsed().as_millis() as u64,
@@ -114,7 +114,7 @@ fn run_shape<OC: GenericConfig<D, F = F>>(s: &Value, selftest: bool) -> Vec<Valu
                     cases.push((p, own_vd.clone(), json!({"second": true})));
                 }
             }
-        } else if STATIC.contains(&c) {
+        } else if STATIC.contains(&split_class(c).0) {
             for _ in 0..per_class {
                 let mut p = honest.clone();
                 if let Some(d) = tamper(&mut p, c, &mut r) {
@@ -183,13 +183,24 @@ fn run_shape<OC: GenericConfig<D, F = F>>(s: &Value, selftest: bool) -> Vec<Valu
 fn run(args: &[String]) -> anyhow::Result<()> {
     let inp = opt(args, "--in").ok_or_else(|| anyhow::anyhow!("--in"))?;
     let selftest = args.iter().any(|a| a == "--selftest");
+    // several candidate scenarios per slot: the first usable one (not skipped) is taken
+    let mut done: std::collections::HashSet<u64> = Default::default();
     for s in read_lines(inp)? {
+        let slot = s["slot"].as_u64();
+        if let Some(k) = slot {
+            if done.contains(&k) {
+                continue;
+            }
+        }
         let t0 = std::time::Instant::now();
         let rows = if s["outer"]["keccak"].as_bool().unwrap_or(false) {
             run_shape::<KeccakGoldilocksConfig>(&s, selftest)
         } else {
             run_shape::<PoseidonGoldilocksConfig>(&s, selftest)
         };
+        if let (Some(k), true) = (slot, rows.iter().any(|r| r.get("shape").is_some())) {
+            done.insert(k);
+        }
         for row in rows {
             emit(&row);
         }
